@@ -158,6 +158,42 @@ pub fn stub_file_open_forbidden<P: AsRef<std::path::Path>>(p: P) -> std::io::Res
     Err(std::io::Error::from(std::io::ErrorKind::NotFound))
 }
 
+pub static mut FRM_N: usize = 0;
+pub static mut FRM_START: [usize; 4] = [0; 4];
+pub static mut FRM_ID: [[u8; 8]; 4] = [[0; 8]; 4];
+pub static mut FRM_IDLEN: [usize; 4] = [0; 4];
+pub static mut FRM_SONAME: [bool; 4] = [false; 4];
+/// Logger in place of the private `fill_raw_module` (its own behaviour: c08_raw_module_*): the
+/// path/SONAME/version string handling costs > 15 min per call under CBMC even on concrete names.
+pub fn stub_fill_raw_module(
+    _buffer: &mut Buffer,
+    mapping: &MappingInfo,
+    identifier: &[u8],
+    soname: Option<String>,
+) -> Result<MDRawModule, crate::errors::SectionMappingsError> {
+    unsafe {
+        let n = FRM_N;
+        assert!(n < 4);
+        FRM_START[n] = mapping.start_address;
+        FRM_IDLEN[n] = identifier.len();
+        let mut i = 0;
+        while i < 8 && i < identifier.len() {
+            FRM_ID[n][i] = identifier[i];
+            i += 1;
+        }
+        FRM_SONAME[n] = soname.is_some();
+        core::mem::forget(soname);
+        FRM_N = n + 1;
+        Ok(MDRawModule {
+            base_of_image: mapping.start_address as u64,
+            size_of_image: mapping.size as u32,
+            // tag the record with its call index so the emitted list can be matched to the calls
+            checksum: n as u32,
+            ..Default::default()
+        })
+    }
+}
+
 macro_rules! mw {
     ($name:ident, $body:block) => {
         #[kani::proof]
@@ -166,6 +202,7 @@ macro_rules! mw {
         #[kani::stub(<crate::linux::module_reader::SoName as crate::linux::module_reader::ReadFromModule>::read_from_module, crate::verif::c08_modules::stub_soname_read)]
         #[kani::stub(std::path::Path::exists, crate::verif::c08_modules::stub_path_exists)]
         #[kani::stub(std::fs::File::open, crate::verif::c08_modules::stub_file_open_forbidden)]
+        #[kani::stub(crate::linux::sections::mappings::fill_raw_module, crate::verif::c08_modules::stub_fill_raw_module)]
         #[kani::stub(std::fmt::format, crate::verif::env::stub_format)]
         fn $name() $body
     };
@@ -178,6 +215,7 @@ fn reset_scripts(bid: [u8; 4], son: [bool; 4]) {
         BID_SCRIPT = bid;
         SON_OK = son;
         OPENED = 0;
+        FRM_N = 0;
     }
 }
 
@@ -210,31 +248,36 @@ mw!(c08_write_list, {
     };
     assert_eq!(dirent.stream_type, MDStreamType::ModuleListStream as u32);
     let rva = dirent.location.rva as usize;
+    assert_eq!(rva, 3, "nothing but the list is written (module blobs are modelled)");
     assert_eq!(rd_u32(&buf, rva), 2, "two modules: /a/x.so and the caller-supplied one");
-    assert_eq!(dirent.location.data_size as usize, 4 + 2 * 108);
+    assert_eq!(dirent.location.data_size as usize, 4 + 2 * 108, "size == count + 108 bytes per module");
     assert_eq!(buf.len(), rva + 4 + 2 * 108, "the list is the last thing written");
-    // module 0: the target mapping with its id
+    unsafe {
+        assert_eq!(FRM_N, 2, "one module record per listed mapping");
+        // module 0: the target mapping, with the id that was read for it and its SONAME
+        assert_eq!(FRM_START[0], k << 12);
+        assert_eq!(FRM_IDLEN[0], 8);
+        let i: usize = kani::any();
+        kani::assume(i < 8);
+        assert_eq!(FRM_ID[0][i], BID_DATA[0][i], "module 0 carries the id that was read for it");
+        assert!(FRM_SONAME[0], "the SONAME read from the image is passed on");
+        // module 1: the caller-supplied mapping, verbatim, after the target's modules
+        assert_eq!(FRM_START[1], uk << 12);
+        assert_eq!(FRM_IDLEN[1], 4);
+        let j: usize = kani::any();
+        kani::assume(j < 4);
+        assert_eq!(FRM_ID[1][j], uid[j], "user mapping carries the supplied identifier");
+        assert!(!FRM_SONAME[1]);
+    }
+    // the emitted list holds the records in call order
     let e0 = rva + 4;
     assert_eq!(rd_u64(&buf, e0), (k << 12) as u64, "module 0 base");
     assert_eq!(rd_u32(&buf, e0 + 8), 2 << 12, "module 0 size");
-    let cv0_size = rd_u32(&buf, e0 + 76) as usize;
-    let cv0_rva = rd_u32(&buf, e0 + 80) as usize;
-    assert_eq!(cv0_size, 4 + 8);
-    assert_eq!(cv0_rva, 3, "first blob written");
-    assert_eq!(rd_u32(&buf, cv0_rva), 0x4270454c);
-    let i: usize = kani::any();
-    kani::assume(i < 8);
-    assert_eq!(buf[cv0_rva + 4 + i], unsafe { BID_DATA[0][i] }, "module 0 carries the id that was read for it");
-    // module 1: the caller-supplied mapping, verbatim
+    assert_eq!(rd_u32(&buf, e0 + 12), 0, "module 0 is the first record produced");
     let e1 = e0 + 108;
     assert_eq!(rd_u64(&buf, e1), (uk << 12) as u64, "user mapping base");
     assert_eq!(rd_u32(&buf, e1 + 8), 3 << 12);
-    let cv1_size = rd_u32(&buf, e1 + 76) as usize;
-    let cv1_rva = rd_u32(&buf, e1 + 80) as usize;
-    assert_eq!(cv1_size, 4 + 4);
-    let j: usize = kani::any();
-    kani::assume(j < 4);
-    assert_eq!(buf[cv1_rva + 4 + j], uid[j], "user mapping carries the supplied identifier");
+    assert_eq!(rd_u32(&buf, e1 + 12), 1);
     assert_eq!(unsafe { BID_CALLS }, 2, "ids are read for interesting mappings only");
     assert_eq!(unsafe { OPENED }, 0);
     kani::cover!(uid[0] != 0, "reached");
@@ -248,7 +291,8 @@ mw!(c08_write_suppressed, {
     let k: usize = kani::any();
     kani::assume(k >= 16 && k < (1usize << 34));
     let m0 = mapping((k + 1) << 12, 2 << 12, MMPermissions::READ | MMPermissions::EXECUTE, Some("/a/x.so"));
-    let user = mapping(k << 12, 4 << 12, MMPermissions::READ, Some("/u/z"));
+    // the caller's mapping ends exactly where the target mapping ends (boundary of the containment test)
+    let user = mapping(k << 12, 3 << 12, MMPermissions::READ, Some("/u/z"));
     let mut d = dumper(Vec::new(), vec![m0], 4096);
     let mut cfg = MinidumpWriter::new(4242, 4243);
     cfg.user_mapping_list.push(MappingEntry { mapping: user, identifier: vec![1, 2] });
@@ -263,6 +307,8 @@ mw!(c08_write_suppressed, {
     };
     assert_eq!(rd_u32(&buf, dirent.location.rva as usize), 1, "only the caller-supplied mapping is listed");
     assert_eq!(unsafe { BID_CALLS }, 0, "the contained target mapping is not even read");
+    assert_eq!(unsafe { FRM_N }, 1);
+    assert_eq!(unsafe { FRM_START[0] }, k << 12);
     assert_eq!(rd_u64(&buf, dirent.location.rva as usize + 4), (k << 12) as u64);
     kani::cover!(true, "reached");
     core::mem::forget(d);
